@@ -4,7 +4,7 @@ From Coq Require Import String List NArith ZArith Bool Permutation.
 From J5V.lib Require Import Outcome.
 From J5V.model Require Import ReflectDesc ReflectSchema Reflect ReflectOwn ReflectSpec.
 From J5V.gen Require ReflectGen.
-From J5V.proofs Require Import ReflectProofs ExportProofs ReflectInvProofs ReflectPathProofs ReflectFuelProofs ReflectFlattenProofs ReflectCodecProofs ReflectDeclProofs ReflectClassProofs ReflectOrderProofs ReflectWeakProofs ReflectOwnProofs ReflectDeclSpecProofs.
+From J5V.proofs Require Import ReflectProofs ExportProofs ReflectInvProofs ReflectPathProofs ReflectFuelProofs ReflectFlattenProofs ReflectCodecProofs ReflectDeclProofs ReflectClassProofs ReflectOrderProofs ReflectWeakProofs ReflectOwnProofs ReflectOwnExactProofs ReflectDeclSpecProofs.
 From J5V.model Require Import Export ReflectDecl.
 Import ListNotations.
 
@@ -42,6 +42,40 @@ Theorem C18_cache_is_the_erased_cache_or_an_error : forall D fuel s m,
   (fst (fst (o_cache_schema D fuel s m)), snd (o_cache_schema D fuel s m)) = cache_schema D fuel (fst s) m.
 Proof. exact o_cache_schema_sim. Qed.
 Print Assumptions C18_cache_is_the_erased_cache_or_an_error.
+
+(* ---- and with distinct split names (wf_keys) the ownership check never fires: the reader as the code is
+   returns EXACTLY what the reader without owners returns (no "or an error"), for SchemaSetFromFiles and for
+   SchemaCache.Schema on every cache state whose owner table is sound (true of the empty cache, kept by every
+   call). So every theorem stated below for reflect / cache_schema under wf_keys holds verbatim of the model
+   of the code; the three that are equivalences are restated for it. *)
+Theorem C18_with_distinct_names_the_reader_is_exactly_the_erased_reader : forall D, wf_keys D -> forall fs,
+  omap fst (o_reflect D fs) = reflect D fs.
+Proof. exact o_reflect_exact. Qed.
+Print Assumptions C18_with_distinct_names_the_reader_is_exactly_the_erased_reader.
+
+Theorem C18_with_distinct_names_the_cache_is_exactly_the_erased_cache : forall D, wf_keys D -> forall fuel s m,
+  OwnI D (snd s) -> In m (d_msgs D) ->
+  (fst (fst (o_cache_schema D fuel s m)), snd (o_cache_schema D fuel s m)) = cache_schema D fuel (fst s) m /\
+  OwnI D (snd (fst (o_cache_schema D fuel s m))).
+Proof. exact o_cache_schema_exact. Qed.
+Print Assumptions C18_with_distinct_names_the_cache_is_exactly_the_erased_cache.
+
+Theorem C18_owned_cache_transparent : forall D, wf_keys D -> forall s m r,
+  o_cache_reach D s -> In m (d_msgs D) ->
+  (snd (o_cache_schema D (size D) s m) = Ok r <-> snd (o_cache_schema D (size D) ([], []) m) = Ok r).
+Proof. exact o_cache_transparent. Qed.
+Print Assumptions C18_owned_cache_transparent.
+
+Theorem C18_owned_reflect_succeeds_iff_erased : forall D, wf_keys D -> forall fs S,
+  (exists ow, o_reflect D fs = Ok (S, ow)) <-> reflect D fs = Ok S.
+Proof. exact o_reflect_ok_iff. Qed.
+Print Assumptions C18_owned_reflect_succeeds_iff_erased.
+
+Theorem C18_owned_reflect_file_order_independent : forall D, wf_keys D -> forall fs fs',
+  Permutation fs fs' ->
+  ((exists S ow, o_reflect D fs = Ok (S, ow)) <-> (exists S' ow', o_reflect D fs' = Ok (S', ow'))).
+Proof. exact o_reflect_file_order_independent. Qed.
+Print Assumptions C18_owned_reflect_file_order_independent.
 
 (* ---- what the ownership adds (no hypothesis on the descriptors): a message that SchemaCache.Schema /
    messageSchema answers owns its schema name afterwards, no name ever changes its owner, and a
